@@ -374,9 +374,47 @@ def gen_dir(rng, nsrc):
             "junk": rng.sample(["README", "notes.txt", "seq.fa", ".hidden", ".gb", ".gbk"], rng.randint(0, 2))}
 
 
+def check_keys_small(ctx):
+    """`FilesystemRegistry._key` against the model's `Dir.key` on *every* file name up to a small length over the
+    letters that matter (a stem letter, the dot, the slash, the extension's letters in both cases): the
+    small-scope exhaustive part of the tie for `splitext` / `_key`"""
+    import itertools
+    import fs.memoryfs
+    from moclo.registry.base import FilesystemRegistry
+    base = source_records(ctx)[0][1]
+    alphabet = "a./gbG"
+    maxlen = 4 if ctx.tier == "quick" else 6
+    names = ["".join(t) for n in range(0, maxlen + 1) for t in itertools.product(alphabet, repeat=n)]
+    def nm(x):
+        return "n" + ",".join(str(ord(ch)) for ch in x)
+    for exts in (("gb", "gbk"), ("g",), ("b.g", "g")):
+        reg = FilesystemRegistry(fs.memoryfs.MemoryFS(), base, extensions=exts)
+        if not hasattr(reg, "_key"):
+            ctx.note("dir-key-helper-absent")       # the helper is private: its absence is not a failure
+            return
+        for lo in range(0, len(names), 400):
+            chunk = names[lo:lo + 400]
+            got = []
+            for x in chunk:
+                try:
+                    k = reg._key(x)
+                    got.append("-" if k is None else nm(k))
+                except Exception as e:  # noqa
+                    got.append("exc:" + type(e).__name__)
+            # a stem spelt `..` makes fs.path.splitext itself raise (IllegalBackReference): outside the model
+            keep = [i for i, x in enumerate(chunk) if not got[i].startswith("exc")]
+            ctx.note("dir-key-splitext-raises", len(chunk) - len(keep))
+            if not keep:
+                continue
+            ctx.op(("RAW", "\t".join(["DKEY", ";".join(nm(e) for e in exts), ";".join(nm(chunk[i]) for i in keep)])),
+                   None, reply=";".join(got[i] for i in keep))
+        ctx.note("dir-key-names", len(names))
+
+
 def run(ctx):
     rng = ctx.rng
     check_embedded(ctx)
+    check_keys_small(ctx)
     for _ in range(ctx.budget(150, 6000)):
         ctx.guard(check_resistance, gen_labels(rng))
     nsrc = len(source_records(ctx))
